@@ -221,6 +221,34 @@ def run(M, rep, tier, only=None):
         rep.check(R4, "header check precedes writes", badw is None and nopen > 0, badw[1] if badw else "no opening path",
                   site=init.file + ":%d" % init.node.lineno, detail=describe_path(badw[0]) if badw else None)
 
+    # ---------------- R6: the file whose existence decides between refuse / create / open is the file that is created / opened
+    R6 = rep.rule("C11.R6", "the path tested for existence is the path handed to the HDF5 create / open call", floor=2,
+                  technique="argument terms of the existence test and of the h5py open/create events on all abstract paths")
+    c6 = Ctx(M, coarse=False)
+    c6.cfg.compose = False
+    init6 = c6.member("File", "__init__")
+    if init6 is None:
+        rep.bad(R6, "File.__init__", "required mechanism not found")
+    else:
+        def base(t):
+            while t and t[0] == "mcall" and t[1] in ("encode", "decode"):
+                t = t[2]
+            return t
+        tested, opened = set(), {}
+        for p in c6.paths(init6, "File", max_paths=20000):
+            for e in p.events:
+                if e.kind == "ext" and e.op.split(".")[-1] in ("exists", "isfile") and e.args:
+                    tested.add(base(e.args[0].t))
+                if e.kind == "raw" and e.op in ("h5py.h5f.create", "h5py.h5f.open") and e.args:
+                    opened.setdefault(e.op, set()).add(base(e.args[0].t))
+        for op in ("h5py.h5f.create", "h5py.h5f.open"):
+            got = opened.get(op, set())
+            rep.check(R6, op, bool(got) and bool(tested) and got <= tested,
+                      "%s is handed %s while existence was tested on %s: an existing file can be taken for missing (and truncated), or "
+                      "data be written to another file than the one named" % (
+                          op, sorted(show(x) for x in got), sorted(show(x) for x in tested)) if got else "required mechanism not found",
+                      site=init6.file + ":%d" % init6.node.lineno)
+
     # ---------------- R5
     ctx = Ctx(M)
     cg = ctx.cg
